@@ -177,6 +177,14 @@ GhostStatuses(g, evs, S) ==
                      ELSE IF a \in g.reach THEN "must" ELSE "free"]]
        IN GhostStatuses(g1, evs, S \ {a})
 
+\* A batch that holds status events and causes a refresh: the property does not say which is
+\* applied first, so a host the refresh adds or moves to an address named by a status event of
+\* the same batch may be connected or down (gOld: before the batch, gNew: after statuses + refresh).
+BatchRelax(gOld, gNew, evs) ==
+  [gNew EXCEPT !.att = [i \in DOMAIN gNew.att |->
+     IF (\E a \in StatusAddrs(evs) : a \in gNew.want[i]) /\ ~(i \in DOMAIN gOld.want /\ gOld.want[i] = gNew.want[i])
+       THEN "free" ELSE gNew.att[i]]]
+
 GhostNeedsRefresh(g, evs) ==
   \/ \E k \in 1 .. Len(evs) : IsTopo(evs[k])
   \/ \E a \in StatusAddrs(evs) : LastStatus(evs, a) = "UP" /\ KnownAt(g, a) = {}
@@ -231,8 +239,6 @@ Viol(o, g) ==
         \cup {IF o.hosts[i] \in g.moved THEN "policy-missing-host-after-id-replacement" ELSE "policy-missing-host"
                 : i \in {j \in Must : ~\E x \in o.polE : x.id = j}}
         \cup {"connected-host-marked-down" : i \in Must \cap o.down}
-        \cup {"connected-host-not-served" : i \in {j \in Must : j \in DOMAIN o.poolA /\ j \notin o.down /\ (\E x \in o.polE : x.id = j)
-                                                         /\ o.served # {"unobserved"} /\ o.hosts[j] \notin o.served}}
         \cup {"down-host-offered" : i \in {j \in MustNot : \E x \in o.polE : x.id = j}}
         \cup {"down-host-served" : i \in {j \in MustNot : Others(j) = {} /\ o.hosts[j] \in o.served}}
         \cup {"down-host-marked-up" : i \in MustNot \ o.down}
@@ -287,7 +293,7 @@ Events(rows, evs) ==
   /\ LET g1 == GhostStatuses(g, evs, StatusAddrs(evs))
          d1 == ApplyStatuses(d, evs, StatusAddrs(evs), g.reach)
          r == BatchNeedsRefresh(d, evs)
-     IN /\ g' = IF GhostNeedsRefresh(g, evs) \/ r THEN Plain(DoRefreshG(g1, rows, Filt)) ELSE g1
+     IN /\ g' = IF GhostNeedsRefresh(g, evs) \/ r THEN Plain(BatchRelax(g, DoRefreshG(g1, rows, Filt), evs)) ELSE g1
         /\ d' = IF r THEN ApplyRefresh(d1, rows, Filt, g.reach) ELSE d1
         /\ nref' = IF r THEN 1 ELSE 0
 
